@@ -462,6 +462,34 @@ class TRec(T):
 
 TSolverT = TSolver()
 
+OPQ_NONE = z3.Const("opq_none", Opq)  # the value None stored in an untyped attribute
+
+
+class TDyn(T):
+    """object whose attribute dictionary is manipulated dynamically (hasattr / getattr /
+    setattr): attribute names -> (present?, value)"""
+
+    def fresh(self, name, st):
+        ref = st.alloc(
+            {
+                "kind": "dyn",
+                "present": st.fresh_const(name + "!present", z3.ArraySort(StrSort, L.Bool)),
+                "val": st.fresh_const(name + "!attrs", z3.ArraySort(StrSort, Opq)),
+            }
+        )
+        return VRef(ref, self)
+
+
+TDynT = TDyn()
+
+
+class VConcDict(V):
+    """dict built along one path from literal operations: the structure is concrete"""
+
+    def __init__(self, items=None):
+        self.items = list(items or [])  # list of (key V, value V), insertion ordered
+        self.ty = TOpaque
+
 
 class TCallable(T):
     """a class / function object passed as a value (e.g. `cls` of a classmethod)"""
